@@ -139,6 +139,25 @@ claim("C04",
   "Trusted: Coq kernel+vm_compute; abstraction epwork.py/absprop.py; client_runner.py; httpx's response.json()/text/content are oracles supplied per case; a File value is identified with its payload bytes.",
   "Coq proof (induction over the response list) + in-Coq differential correspondence against executed generated code", "4/C04")
 
+claim("C10",
+  "Coq theorems (all inputs): optional_absent_unset / unset_not_encoded / required_always_emitted / required_absent_error (an absent optional property reads back as UNSET and UNSET is never transmitted; a required one is always "
+  "emitted and its absence is an error) on the Codec.v model of generated from_dict/to_dict; null_decodes_to_none / none_encodes_to_null / null_invalid_when_not_nullable; type_admits_none_iff_nullable (Types.v: the declared "
+  "type admits None exactly when the kind has a null member) and optional_admits_unset; mandatory_iff_required_nodefault; query/header/cookie_unset_absent on Endpoint.v. Tied to the code on every run: get_type_string of every "
+  "property compared (as a set) with Types.type_of, the document's nullability compared with Types.nullable of the parsed tree, and absent/present/null instances executed through the generated from_dict/to_dict compared with "
+  "Codec.dec/enc (vm_compute), over the exhaustive grid kind x {required, optional, +default} x {none, 3.0 nullable, 3.1 type list, anyOf null, oneOf null, enum null member}; oracle on constructor / endpoint signatures and on "
+  "requests captured with optional arguments omitted.",
+  "Trusted: Coq kernel+vm_compute; tyabs.py (annotation text -> Types.ty), absprop.py, client_runner.py; parameter calls that httpx refuses (non-string cookie/header values, findings of C03) are unobservable and counted as such.",
+  "Coq proof + in-Coq differential correspondence (annotations, nullability, executed generated code) over an exhaustive grid", "4/C10")
+claim("C11",
+  "PARTIAL by nature: mypy's accept/reject judgement is an external checker whose type system is not modelled - `mypy --strict` runs as the search stage only (its errors are violations or listed findings, its silence is not claimed as proof). "
+  "Proved in Coq for all inputs: decode_inhabits_annotation (every value the model of from_dict produces from schema-valid data inhabits the modelled annotation type_of k), decoded_fields_inhabit (every attribute of a decoded object "
+  "against its own, possibly optional, declaration), parsed_value_typed (response values against the return annotation member), and decoded values are accepted by the encoder (roundtrip). Tied to the code: every property / "
+  "parameter / body / response annotation text is parsed and compared with Types.type_of, and every attribute of every object returned by the GENERATED from_dict on valid instances (atlas + random schema graphs, literal_enums off/on) "
+  "is checked inside Coq to inhabit the modelled annotation.",
+  "Trusted: Coq kernel+vm_compute; tyabs.py, absprop.py, client_runner.py; the denotation Types.inhabits (bool <: int <: float, datetime <: date); a 3-line stub for dateutil.parser.isoparse stands in for types-python-dateutil "
+  "(not installable offline). The half 'every value admitted by a parameter annotation is accepted by the encoder' is proved only for values the decoder produces.",
+  "Coq proof (typing of the decoder model) + in-Coq check of observed run-time values + mypy as search", "4/C11")
+
 def main():
     checks = []
     for pid in ALL:
